@@ -117,6 +117,63 @@ theorem C13_alpha_exact (tns : List String) (is : List Typename) (this : Option 
   have hk2 : k < is.length := Nat.lt_of_lt_of_le (indexOf?_lt hidx) hlen
   simp [hidx, List.getElem?_eq_getElem hk2]
 
+theorem flatMap_sublist {α β : Type} {f g : α → List β} (hfg : ∀ a, (f a).Sublist (g a)) {xs xs' : List α}
+    (h : xs.Sublist xs') : (xs.flatMap f).Sublist (xs'.flatMap g) := by
+  induction h with
+  | slnil => simp
+  | cons a _ ih =>
+    simp only [List.flatMap_cons]
+    exact ih.trans (List.sublist_append_right _ _)
+  | cons_cons a _ ih =>
+    simp only [List.flatMap_cons]
+    exact List.Sublist.append (hfg a) ih
+
+theorem product_sublist {α : Type} {ls ls' : List (List α)} (h : List.Forall₂ List.Sublist ls ls') :
+    (product ls).Sublist (product ls') := by
+  induction h with
+  | nil => simp [product]
+  | cons hx _ ih =>
+    simp only [product]
+    exact flatMap_sublist (fun a => ih.map _) hx
+
+theorem mapM'_sublist {α β : Type} {f : α → Except Err β} {xs xs' : List α} (h : xs.Sublist xs') :
+    ∀ {ys' : List β}, mapM' f xs' = .ok ys' → ∃ ys, mapM' f xs = .ok ys ∧ ys.Sublist ys' := by
+  induction h with
+  | slnil => intro ys' h'; exact ⟨[], rfl, by simp⟩
+  | cons a _ ih =>
+    intro ys' h'
+    cases (mapM'_ok_iff.1 h') with
+    | cons h1 h2 =>
+      obtain ⟨ys, hy, hs⟩ := ih (mapM'_ok_iff.2 h2)
+      exact ⟨ys, hy, hs.trans (List.sublist_cons_self _ _)⟩
+  | cons_cons a _ ih =>
+    intro ys' h'
+    cases (mapM'_ok_iff.1 h') with
+    | cons h1 h2 =>
+      obtain ⟨ys, hy, hs⟩ := ih (mapM'_ok_iff.2 h2)
+      exact ⟨_ :: ys, mapM'_ok_iff.2 (List.Forall₂.cons h1 (mapM'_ok_iff.1 hy)), hs.cons_cons _⟩
+
+/-- **requesting fewer instantiations only removes results.**  If every parameter's list is a sub-list of the original
+    one (any parameters, any positions removed), the instantiations produced are a sub-sequence of the original ones: the
+    survivors are unchanged (each is `f` of its own tuple) and keep their relative order -/
+theorem C13_fewer_requests {α β : Type} (f : List α → Except Err β) {ls ls' : List (List α)}
+    (h : List.Forall₂ List.Sublist ls ls') {ys' : List β} (h' : mapM' f (product ls') = .ok ys') :
+    ∃ ys, mapM' f (product ls) = .ok ys ∧ ys.Sublist ys' :=
+  mapM'_sublist (product_sublist h) h'
+
+/-- the same for a class template: `instLeaf` is that `mapM'` over the product of the declared lists -/
+theorem C13_fewer_requests_class (F : TyInst) (c : ClassDecl) (ps : Template) (p es : List String) (out' : List IDecl)
+    (hc : c.tmpl = some ps) (h : instLeaf F (.cls c) p es = .ok out') (ls : List (List Typename))
+    (hl : List.Forall₂ List.Sublist ls (ps.map (·.insts))) :
+    ∃ out, mapM' (fun is => do let ic ← instClass F c p is "" es; pure (IDecl.cls ic)) (product ls) = .ok out ∧
+      out.Sublist out' := by
+  simp only [instLeaf, hc] at h
+  exact C13_fewer_requests _ hl h
+/-- non-vacuity: dropping `B` from the first parameter's list -/
+example : List.Forall₂ List.Sublist [["A"], ["X", "Y"]] [["A", "B"], ["X", "Y"]] ∧
+    product [["A"], ["X", "Y"]] = [["A", "X"], ["A", "Y"]] := by
+  refine ⟨.cons (by decide) (.cons (List.Sublist.refl _) .nil), by decide⟩
+
 /-- non-vacuity -/
 example : product ([⟨[], "A", []⟩, ⟨[], "B", []⟩].map fun i : Typename => [i]) = [[⟨[], "A", []⟩, ⟨[], "B", []⟩]] := by simp [product]
 
